@@ -1,6 +1,9 @@
 import FmtModel.Wire
 import FmtModel.Classes.Serial
 import FmtModel.Classes.Datetime
+import FmtModel.Classes.Naming
+import FmtModel.Classes.Version
+import FmtModel.Classes.Storage
 open Py Wire Engine
 
 namespace Drv
@@ -9,7 +12,7 @@ def showAV : AV → String
   | .none => "~"
   | .str s => "=" ++ esc s
   | .strs l => "[" ++ String.intercalate "," (l.map esc) ++ "]"
-  | .dec c e => s!"D{c}e{e}"
+  | .dec n c e => s!"D{n}:{c}e{e}"
 
 def showFObj (o : Engine.Obj) : String :=
   String.intercalate ";" (o.attrs.map fun (k, v) => esc k ++ showAV v) ++ "|" ++
@@ -46,8 +49,42 @@ def readDT (s : Str) : Cal.DT :=
   | [y, m, d, h, mi, sec, us] => { year := y, month := m, day := d, hour := h, minute := mi, second := sec, micro := us }
   | _ => default
 
+def readWords (s : Str) : List Str := if s.isEmpty then [] else (splitOn s [',']).map unesc
+def showWords (l : List Str) : String := String.intercalate "," (l.map esc)
+
+def showDec (d : Dec.D) : String := s!"D{if d.neg then "-" else ""}{d.coeff}e{d.exp}"
+def readDec (s : Str) : Dec.D := (Dec.ofStr s).getD { coeff := 0, exp := 0 }
+
 def fmtDispatch (op : String) (a : List Str) : Option String :=
   match op.splitOn ".", a with
+  | ["storage", sub], _ =>
+    (match sub, a with
+     | "format", [v, fmt] =>
+       some (showR esc (do let o ← Engine.fromValue Storage.cls (readDec v); Engine.format Storage.cls o fmt))
+     | "from_value", [v] =>
+       some (showR (fun o => esc (Storage.string o)) (Engine.fromValue Storage.cls (readDec v)))
+     | "render", [v, key] => some (showR esc (Storage.render key (readDec v)))
+     | "dec", [s] => some (match Dec.ofStr s with | some d => showDec d ++ " " ++ esc (Dec.toStr d) | none => "invalid")
+     | "decdiv", [x, y] => some (match Dec.div (readDec x) (readDec y) with | some d => showDec d | none => "invalid")
+     | "decmul", [x, y] => some (showDec (Dec.mul (readDec x) (readDec y)))
+     | "decq0", [x] => some (match Dec.quantize0 (readDec x) with | some d => showDec d | none => "invalid")
+     | _, _ => clsOps Storage.cls showDec sub a)
+  | ["version", sub], _ =>
+    (match sub, a with
+     | "format", [v, fmt] =>
+       some (showR esc (do let o ← Engine.fromValue Version.cls (readObj v); Engine.format Version.cls o fmt))
+     | "from_value", [v] =>
+       some (showR (fun o => esc (Version.string o)) (Engine.fromValue Version.cls (readObj v)))
+     | "render", [v, key] => some (showR esc (Version.render key (readObj v)))
+     | _, _ => clsOps Version.cls showObj sub a)
+  | ["naming", sub], _ =>
+    (match sub, a with
+     | "format", [ws, fmt] =>
+       some (showR esc (do let o ← Engine.fromValue Naming.cls (readWords ws); Engine.format Naming.cls o fmt))
+     | "from_value", [ws] =>
+       some (showR (fun o => esc (Naming.string o)) (Engine.fromValue Naming.cls (readWords ws)))
+     | "render", [ws, key] => some (showR esc (Naming.render key (readWords ws)))
+     | _, _ => clsOps Naming.cls showWords sub a)
   | ["datetime", sub], _ =>
     (match sub, a with
      | "format", [t, fmt] =>
